@@ -11,6 +11,8 @@ import MesonModel.Sched.ConfigLemmas
 import MesonModel.Sched.ClassifyLemmas
 import MesonModel.Sched.SelectLemmas
 import MesonModel.Sched.ReplayLemmas
+import MesonModel.Sched.RepeatLemmas
+import MesonModel.Sched.Timeout
 
 namespace MesonModel.Props.C12
 open MesonModel.Sched MesonModel.Sched.TestResult
@@ -328,6 +330,259 @@ theorem summary_rows (t : Tally) :
   simp at this
   omega
 
+/-! ### Totals against what was run, when the run is cut short (`--maxfail`, INTERRUPT results)
+
+`Report` is the reporting state of `TestHarness` (`process_test_result`, `is_bad_result`, `maxfail_reached`,
+`collected_failures`, `summary`, `total_failure_count`).  An operation list is any sequence of processed results
+with `maxfail_reached` coming on at *any* points (`ROp.reach`) in addition to the points the rule of `run_test`
+chooses; `m` is `--maxfail`. -/
+
+/-- finished results never reach the `sys.exit('Unknown test result')` branch: the run of the reporting state
+is defined for every result sequence and every placement of the flag -/
+theorem report_defined (m : Nat) (ops : List ROp) (hf : ∀ r ∈ ropResults ops, r.isFinished = true) :
+    ∃ h, Report.run m {} ops = some h :=
+  Report.run_total m ops {} hf
+
+/-- **printed totals = tally of the classifications, log = what was processed**: for every result sequence and
+every point at which `maxfail_reached` comes on, the seven counters are the tally of exactly the processed
+results (INTERRUPTs of tests killed by the cut included), the loggers (testlog.json) were handed exactly those
+results in order, and the numbers `summary()` prints add up to the number of results processed -/
+theorem report_totals (m : Nat) (ops : List ROp) (h : Report) (hr : Report.run m {} ops = some h) :
+    h.tally = tallyOf (ropResults ops) ∧
+    h.logged = ropResults ops ∧
+    h.tally.printedTotal = (ropResults ops).length := by
+  obtain ⟨hf, ht, hl⟩ := Report.run_tally hr
+  have ht' : h.tally = tallyOf (ropResults ops) := ht
+  refine ⟨ht', by simpa using hl, ?_⟩
+  rw [Tally.printedTotal_eq_total, ht', total_tallyOf _ hf]
+
+/-- each printed row is the count of its class among the processed results, cut or not -/
+theorem report_rows (m : Nat) (ops : List ROp) (h : Report) (hr : Report.run m {} ops = some h) :
+    h.tally.summaryRows = (tallyOf (ropResults ops)).summaryRows ∧
+    h.tally.fail = (ropResults ops).countP (fun r => r == FAIL || r == ERROR || r == INTERRUPT) ∧
+    h.tally.timeout = (ropResults ops).countP (· == TIMEOUT) := by
+  obtain ⟨ht, _, _⟩ := report_totals m ops h hr
+  rw [ht, tally_matches_classification]
+  exact ⟨rfl, rfl, rfl⟩
+
+/-- **exit status**: non-zero iff a bad result (FAIL, ERROR, TIMEOUT, INTERRUPT, UNEXPECTEDPASS) was processed —
+wherever the flag came on -/
+theorem report_exit_nonzero_iff_bad (m : Nat) (ops : List ROp) (h : Report) (hr : Report.run m {} ops = some h) :
+    h.exitStatus ≠ 0 ↔ ∃ r, r ∈ ropResults ops ∧ r.isBad = true := by
+  obtain ⟨ht, _, _⟩ := report_totals m ops h hr
+  unfold Report.exitStatus
+  rw [ht]
+  exact exit_nonzero_iff_bad _
+
+/-- `collected_failures` ("Summary of Failures") holds only processed bad results, holds every processed bad
+result other than INTERRUPT, and never more entries than the failure total; so the totals cannot be derived
+from it (the interrupted tests of a `--maxfail` cut are run, printed, logged and counted, but not listed) -/
+theorem collected_failures_rule (m : Nat) (ops : List ROp) (h : Report) (hr : Report.run m {} ops = some h) :
+    (∀ r ∈ h.collected, r ∈ ropResults ops ∧ r.isBad = true) ∧
+    (∀ r ∈ ropResults ops, r.isBad = true → r ≠ INTERRUPT → r ∈ h.collected) := by
+  refine ⟨?_, (Report.run_collected_sup hr).2⟩
+  intro r hx
+  rcases Report.run_collected_sub hr r hx with h1 | h1
+  · simp at h1
+  · exact h1
+
+/-- under the rule of `run_test` alone (no outside switch of the flag): the list of failures is empty iff the
+exit status is zero -/
+theorem collected_empty_iff_exit_zero (m : Nat) (rs : List TestResult) (h : Report)
+    (hr : Report.run m {} (rs.map .result) = some h) : h.collected = [] ↔ h.exitStatus = 0 := by
+  have hex := report_exit_nonzero_iff_bad m _ h hr
+  rw [ropResults_map] at hex
+  have hc := (Report.run_results_collected (h := {}) (by simp) hr).2
+  have hsub := (collected_failures_rule m _ h hr).1
+  rw [ropResults_map] at hsub
+  constructor
+  · intro hnil
+    apply Classical.byContradiction
+    intro hne
+    exact hc (hex.mp hne) hnil
+  · intro h0
+    cases hq : h.collected with
+    | nil => rfl
+    | cons x xs =>
+      have := hsub x (by rw [hq]; simp)
+      exact absurd h0 (hex.mpr ⟨x, this.1, this.2⟩)
+
+/-- the interrupted tests of a `--maxfail 1` cut: processed, logged, counted under `Fail`, exit status 1, and
+left out of the list of failures -/
+example : Report.run 1 {} [.result OK, .result FAIL, .result INTERRUPT, .result INTERRUPT, .result SKIP] =
+    some { tally := { ok := 1, fail := 3, skip := 1 }, collected := [FAIL], maxfailReached := true,
+           logged := [OK, FAIL, INTERRUPT, INTERRUPT, SKIP] } := by decide
+
+/-- **every schedule**: the counters and `maxfail_reached` of the scheduler model are this reporting state fed
+with the results in the order they were processed -/
+theorem scheduler_report {c : Config} {tr : List Label} {s : State} (h : Exec c tr s) :
+    ∃ rp, Report.run c.maxfail {} ((resultsOf tr).map .result) = some rp ∧
+      rp.tally = s.tally ∧ rp.maxfailReached = s.maxfailReached ∧ rp.logged = resultsOf tr :=
+  h.report
+
+/-- **every schedule, cut or not**: the printed totals add up to the number of results processed, and the exit
+status is non-zero iff one of them is bad -/
+theorem scheduler_totals_add_up {c : Config} {tr : List Label} {s : State} (h : Exec c tr s) :
+    s.tally.printedTotal = (resultsOf tr).length ∧
+    (s.tally.exitStatus ≠ 0 ↔ ∃ r, r ∈ resultsOf tr ∧ r.isBad = true) := by
+  obtain ⟨ht, hf⟩ := scheduler_tally h
+  refine ⟨by rw [Tally.printedTotal_eq_total, ht, total_tallyOf _ hf], ?_⟩
+  rw [ht]; exact exit_nonzero_iff_bad _
+
+/-- **what was reported is what was run**: in every schedule a runner has at most one processed result, and only
+if its test was started; when `_run_tests` has returned — run to the end or cut short by `--maxfail` / a failure
+under `--repeat` — the runners with a processed result are exactly the runners whose test was started.  With
+`scheduler_totals_add_up` (the printed totals add up to the number of processed results) the totals therefore add
+up to the number of tests that were run -/
+theorem reported_iff_started {c : Config} {tr : List Label} {s : State} (h : Exec c tr s) (i : Nat) :
+    finishCount i tr ≤ startCount i tr ∧ startCount i tr ≤ 1 ∧
+    (s.main = .finished → finishCount i tr = startCount i tr) := by
+  rw [h.finishCount_eq, h.startCount_eq]
+  refine ⟨?_, by split <;> omega, ?_⟩
+  · cases hd : (s.st i).isDone with
+    | false => simp
+    | true => simp [St.done_started hd]
+  · intro hf
+    cases hst : (s.st i).started with
+    | false =>
+      cases hd : (s.st i).isDone with
+      | false => rfl
+      | true => rw [St.done_started hd] at hst; cases hst
+    | true =>
+      have hl : i < s.next := by
+        apply Nat.lt_of_not_le
+        intro hle
+        have := h.inv.notLaunched i hle
+        rw [this] at hst; cases hst
+      have ht := h.cutInv.finishedTerminal hf i hl
+      simp [St.started_terminal_done hst ht]
+
+/-! ### The two cuts stop further tests: `--maxfail` and a failure under `--repeat` -/
+
+/-- once `--maxfail` failures (FAIL / ERROR / INTERRUPT) have been processed, no further test is started, in any
+schedule -/
+theorem no_start_after_maxfail {c : Config} {tr : List Label} {l : Label} {s' : State}
+    (h : Exec c (tr ++ [l]) s') (hm : c.maxfail > 0)
+    (hf : (resultsOf tr).countP TestResult.countsAsFail ≥ c.maxfail) (i : Nat) : l ≠ .acquireStart i := by
+  intro e
+  subst e
+  obtain ⟨s, hp, hs⟩ := h.snoc_inv
+  have h1 := (step_acquireStart_guard hs).1
+  have h2 := hp.maxfail_interrupts hm (by rw [hp.tally_eq, fail_tallyOf]; exact hf)
+  rw [h1] at h2; cases h2
+
+/-- under `--repeat N` (N > 1) a processed FAIL / ERROR / INTERRUPT result stops the run: no further test is
+started afterwards, in any schedule -/
+theorem no_start_after_repeat_failure {c : Config} {tr : List Label} {l : Label} {s' : State}
+    (h : Exec c (tr ++ [l]) s') (hr : c.repeatGt1 = true)
+    (hf : ∃ r, r ∈ resultsOf tr ∧ r.countsAsFail = true) (i : Nat) : l ≠ .acquireStart i := by
+  intro e
+  subst e
+  obtain ⟨s, hp, hs⟩ := h.snoc_inv
+  have h1 := (step_acquireStart_guard hs).2
+  have hpos : 0 < (resultsOf tr).countP TestResult.countsAsFail := List.countP_pos_iff.mpr hf
+  have hfc : s.failCount > 0 := by
+    unfold State.failCount
+    rw [hp.tally_eq, fail_tallyOf]; exact hpos
+  have : repeatFailed c s = true := by
+    simp [repeatFailed, hr, hfc]
+  rw [h1] at this; cases this
+
+/-- `--repeat`: runner `it * len + i` is repetition `it` of selected test `i`; in a complete run that was not
+cut every selected test is started exactly once in every repetition -/
+theorem once_per_repetition (jobs reps : Nat) (declared : List Bool) {tr : List Label} {s : State}
+    (h : Exec (mkConfig jobs reps 0 declared) tr s)
+    (hr : repeatFailed (mkConfig jobs reps 0 declared) s = false) (hf : s.main = .finished)
+    (it i : Nat) (hit : it < reps) (hi : i < declared.length) :
+    startCount (it * declared.length + i) tr = 1 := by
+  have hn := mkConfig_n jobs reps 0 declared
+  have hlt : it * declared.length + i < (mkConfig jobs reps 0 declared).n := by
+    rw [hn]
+    calc it * declared.length + i < it * declared.length + declared.length := by omega
+      _ = (it + 1) * declared.length := by rw [Nat.succ_mul]
+      _ ≤ reps * declared.length := Nat.mul_le_mul_right _ hit
+  exact (all_started_exactly_once_when_complete h rfl hr hf _ hlt).1
+
+/-! ### Time limit: `timeout <= 0` means none, `--timeout-multiplier` -/
+
+/-- the limit is disabled exactly by `--interactive`, a missing / zero / negative `timeout:` or a zero / negative
+`--timeout-multiplier` -/
+theorem timeout_disabled_iff (interactive : Bool) (t : Option Int) (m : Option Frac) :
+    runnerTimeout interactive t m = none ↔
+      (interactive = true ∨ t = none ∨ (∃ x, t = some x ∧ x ≤ 0) ∨ (∃ f, m = some f ∧ f.num ≤ 0)) := by
+  unfold runnerTimeout
+  cases interactive
+  · cases t with
+    | none => simp
+    | some x =>
+      by_cases hx : x ≤ 0
+      · simp [hx]
+      · cases m with
+        | none => simp [hx]
+        | some f =>
+          by_cases hf : f.num ≤ 0
+          · simp [hx, hf]
+          · simp [hx, hf]
+  · simp
+
+/-- otherwise it is `timeout * multiplier` (just `timeout` without a multiplier), a positive number -/
+theorem timeout_value (x : Int) (hx : 0 < x) :
+    runnerTimeout false (some x) none = some ⟨x, 1⟩ ∧
+    ∀ f : Frac, 0 < f.num → runnerTimeout false (some x) (some f) = some ⟨x * f.num, f.den⟩ := by
+  have hx' : ¬ x ≤ 0 := by omega
+  refine ⟨by simp [runnerTimeout, hx'], ?_⟩
+  intro f hf
+  have hf' : ¬ f.num ≤ 0 := by omega
+  simp [runnerTimeout, hx', hf']
+
+theorem timeout_positive (interactive : Bool) (t : Option Int) (m : Option Frac) (f : Frac)
+    (h : runnerTimeout interactive t m = some f) : 0 < f.num := by
+  unfold runnerTimeout at h
+  cases interactive
+  · cases t with
+    | none => simp at h
+    | some x =>
+      by_cases hx : x ≤ 0
+      · simp [hx] at h
+      · cases m with
+        | none => simp [hx] at h; subst h; simp; omega
+        | some g =>
+          by_cases hg : g.num ≤ 0
+          · simp [hx, hg] at h
+          · simp [hx, hg] at h; subst h; simp
+            exact Int.mul_pos (by omega) (by omega)
+  · simp at h
+
+/-- a test declared with `timeout: 0` or a negative timeout is never reported TIMEOUT by the time limit, however
+long it runs and whatever the multiplier: it is classified by its exit status -/
+theorem nonpositive_timeout_never_times_out (x : Int) (hx : x ≤ 0) (m : Option Frac) (dur : Nat)
+    (rc : Int) (e : Option Int) (sf : Bool) :
+    (waitOutcome (runnerTimeout false (some x) m) dur).map (fun w => classifyRun w rc e sf) =
+      some (classifyRun .exited rc e sf) := by
+  have : runnerTimeout false (some x) m = none :=
+    (timeout_disabled_iff false (some x) m).mpr (Or.inr (Or.inr (Or.inl ⟨x, rfl, hx⟩)))
+  rw [this]; rfl
+
+/-- a test that outlives its (positive) limit is TIMEOUT whatever its exit status and flags; one that ends
+before the limit is classified by its exit status -/
+theorem limit_decides (f : Frac) (dur : Nat) (rc : Int) (e : Option Int) (sf : Bool) :
+    (f.ltNat dur = true →
+      (waitOutcome (some f) dur).map (fun w => classifyRun w rc e sf) = some TIMEOUT) ∧
+    (f.gtNat dur = true →
+      (waitOutcome (some f) dur).map (fun w => classifyRun w rc e sf) = some (classifyRun .exited rc e sf)) := by
+  constructor
+  · intro h
+    simp [waitOutcome, h, timeout_classification]
+  · intro h
+    have h' : f.ltNat dur = false := by
+      simp only [Frac.ltNat, Frac.gtNat, decide_eq_true_eq, decide_eq_false_iff_not] at h ⊢
+      omega
+    simp [waitOutcome, h, h']
+
+example : runnerTimeout false (some 30) (some ⟨5, 2⟩) = some ⟨150, 2⟩ ∧
+    runnerTimeout false (some (-1)) (some ⟨5, 2⟩) = none ∧ runnerTimeout false (some 30) (some ⟨0, 1⟩) = none ∧
+    waitOutcome (some ⟨150, 2⟩) 76 = some .timedOut ∧ waitOutcome (some ⟨150, 2⟩) 75 = none := by decide
+
 /-! ### `--slice` -/
 
 /-- `--slice i/n` over `i = 1..n` partitions the selected tests: concatenating the slices gives a permutation
@@ -503,5 +758,28 @@ example : pySlice [10, 11, 12, 13, 14, 15, 16] 2 3 = [11, 14] := by decide
 
 example : suiteMatches "p:a".toList "p:a".toList = true ∧ suiteMatches ":a".toList "q:a".toList = true ∧
     suiteMatches "a".toList "p:b".toList = false := by decide
+
+/-- the hypotheses of `no_start_after_maxfail` are satisfiable: the `--maxfail 1` schedule above, cut after the
+first failure, continues with the INTERRUPT of the test in flight — and by the theorem never with a start -/
+example : ∃ s', Exec exCut (exCutTrace.take 7 ++ [.finish 1 INTERRUPT]) s' ∧ exCut.maxfail > 0 ∧
+    (resultsOf (exCutTrace.take 7)).countP TestResult.countsAsFail ≥ exCut.maxfail := by
+  have h : (runLabels exCut (exCutTrace.take 7 ++ [.finish 1 INTERRUPT]) (init exCut)).isSome = true := by decide
+  obtain ⟨s, hs⟩ := Option.isSome_iff_exists.mp h
+  exact ⟨s, by simpa using exec_of_run (Exec.nil (c := exCut)) hs, by decide, by decide⟩
+
+/-- `--repeat 2`, two tests, the first fails in the first repetition: hypotheses of `no_start_after_repeat_failure` -/
+def exRep : Config := mkConfig 2 2 0 [true, true]
+
+example : ∃ s', Exec exRep ([.launch, .launch, .acquireStart 0, .acquireStart 1, .finish 0 FAIL] ++ [.finish 1 OK]) s' ∧
+    exRep.repeatGt1 = true ∧
+    ∃ r, r ∈ resultsOf [.launch, .launch, .acquireStart 0, .acquireStart 1, .finish 0 FAIL] ∧ r.countsAsFail = true := by
+  have h : (runLabels exRep ([.launch, .launch, .acquireStart 0, .acquireStart 1, .finish 0 FAIL] ++ [.finish 1 OK])
+      (init exRep)).isSome = true := by decide
+  obtain ⟨s, hs⟩ := Option.isSome_iff_exists.mp h
+  exact ⟨s, by simpa using exec_of_run (Exec.nil (c := exRep)) hs, by decide, FAIL, by decide, by decide⟩
+
+/-- in that cut `--maxfail 1` run: two tests started, two results processed, one runner never started -/
+example : finishCount 0 exCutTrace = 1 ∧ finishCount 1 exCutTrace = 1 ∧ finishCount 2 exCutTrace = 0 ∧
+    startCount 2 exCutTrace = 0 ∧ (resultsOf exCutTrace).length = 2 := by decide
 
 end MesonModel.Props.C12
